@@ -114,7 +114,7 @@ class P_discus(StructureParser):
                     continue
                 self._parse_atom(words)
             # self consistency check
-            exp_natoms = reduce(lambda x, y: x * y, self.stru.pdffit["ncell"])
+            exp_natoms = reduce(lambda x, y: x * y, self.stru.pdffit["ncell"], 1)
             # only check if ncell record exists
             if self.ncell_read and exp_natoms != len(self.stru):
                 emsg = "Expected %d atoms, read %d." % (exp_natoms, len(self.stru))
@@ -126,7 +126,7 @@ class P_discus(StructureParser):
                 superlattice = Lattice(*superlatpars)
                 self.stru.placeInLattice(superlattice)
                 self.stru.pdffit["ncell"] = [1, 1, 1, exp_natoms]
-        except (ValueError, IndexError):
+        except (ValueError, IndexError, ZeroDivisionError):
             exc_type, exc_value, exc_traceback = sys.exc_info()
             emsg = "%d: file is not in DISCUS format" % self.nl
             e = StructureFormatError(emsg)
